@@ -124,14 +124,18 @@ class MetadataManager:
         is missing, unreadable, or points at a missing file, the latest
         version is recovered by scanning v*.metadata.json files.
         """
+        return self._refresh_with_info()[1]
+
+    def _refresh_with_info(self) -> Tuple[Optional[Tuple[int, str]], Optional[TableMetadata]]:
+        """refresh() that also reports WHICH metadata file it resolved to."""
         with self._lock:
             info = self._current_version_info()
             if info is None:
-                return None
+                return None, None
 
             _version, metadata_file = info
             metadata_path = f"{self.metadata_path}/{metadata_file}"
-            return self._read_metadata_file(metadata_path)
+            return info, self._read_metadata_file(metadata_path)
 
     def commit(self, base_metadata: TableMetadata, new_metadata: TableMetadata) -> TableMetadata:
         """Commit new metadata with Optimistic Concurrency Control following Iceberg pattern.
@@ -158,7 +162,7 @@ class MetadataManager:
 
             try:
                 # PHASE 1: Validation (inside lock to prevent races)
-                current = self.refresh()
+                validated_info, current = self._refresh_with_info()
 
                 # Check UUID consistency
                 if current and current.table_uuid != base_metadata.table_uuid:
@@ -201,6 +205,16 @@ class MetadataManager:
                         parsed = self._parse_hint_content(hint_bytes)
                         if parsed is not None:
                             filesystem_version, previous_metadata_file = parsed
+                            # The conditional PUT below is keyed to the ETag of THIS
+                            # read. It only protects the commit if this read saw the
+                            # very version the validation above was made against: a
+                            # commit landing between the two reads would otherwise
+                            # be overwritten with a matching ETag.
+                            if validated_info is not None and previous_metadata_file != validated_info[1]:
+                                raise ConcurrentModificationException(
+                                    "Version hint changed between validation and the "
+                                    "conditional write; retrying"
+                                )
                     except FileNotFoundError:
                         hint_etag = None
                 if filesystem_version is None:
